@@ -1474,7 +1474,7 @@ class t2data(object):
             ('cx', 'f8'),
             ('cy', 'f8'),
             ('cz', 'f8')])
-        blkdata = np.array([(i, blk.name, blk.name.ljust(8).encode(),
+        blkdata = np.array([(i, blk.name, unfix_blockname(blk.name).ljust(8).encode(),
                              rockdict[blk.rocktype.name],
                              blk.volume, blk.ahtx, blk.pmx, blk.centre[0],
                              blk.centre[1], blk.centre[2])
@@ -1494,8 +1494,8 @@ class t2data(object):
             ('area', 'f8'),
             ('dircos', 'f8'),
             ('sigma', 'f8')])
-        condata = np.array([(con.block[0].name.ljust(8).encode(),
-                             con.block[1].name.ljust(8).encode(),
+        condata = np.array([(unfix_blockname(con.block[0].name).ljust(8).encode(),
+                             unfix_blockname(con.block[1].name).ljust(8).encode(),
                              blkdict[con.block[0].name.encode()],
                              blkdict[con.block[1].name.encode()],
                              con.distance[0], con.distance[1],
